@@ -239,7 +239,7 @@ ROWS = [";", "; ", " ; "]
 
 @st.composite
 def s_s2a(draw):
-    kind = draw(st.sampled_from(["int", "float", "complex", "bits", "int01", "bigint"]))
+    kind = draw(st.sampled_from(["int", "float", "complex", "bits", "int01", "bigint", "int01long"]))
     rows = draw(st.sampled_from([1, 1, 2, 3]))
     n = draw(st.integers(1, 6))
     if kind == "int":
@@ -256,18 +256,22 @@ def s_s2a(draw):
                              min_size=rows * n, max_size=rows * n))
     elif kind == "bits":
         vals = draw(st.lists(st.integers(0, 1), min_size=rows * n, max_size=rows * n))
+    elif kind == "int01long":
+        # numbers written with the digits 0 and 1 whose digit count exceeds what a 64-bit integer holds: meaningful with dtype float / complex
+        long01 = st.integers(1, 2 ** 40).map(lambda v: int(bin(v)[2:])).filter(lambda v: v >= 10 ** 15)
+        vals = draw(st.lists(st.one_of(long01, st.sampled_from([10 ** 19, 10 ** 20 + 1, 10 ** 18, 1, 0, 11])), min_size=rows * n, max_size=rows * n))
     else:  # numbers written only with the digits 0 and 1
         vals = draw(st.lists(st.sampled_from([0, 1, 10, 11, 100, 101, 110, 111, 1000]), min_size=rows * n, max_size=rows * n))
     return {"kind": kind, "rows": rows, "n": n, "vals": vals, "sep": draw(st.sampled_from(SEPS)), "rsep": draw(st.sampled_from(ROWS)),
             "unit": draw(st.sampled_from(["j", "i"])), "glue": draw(st.booleans()),
-            "dtype": draw(st.sampled_from([None, None, "int", "float", "complex", "bool"])), "fmt": draw(st.sampled_from(["%.6f", "%.4f", "%.1f"])),
+            "dtype": draw(st.sampled_from(["float", "complex"])) if kind == "int01long" else draw(st.sampled_from([None, None, "int", "float", "complex", "bool"])), "fmt": draw(st.sampled_from(["%.6f", "%.4f", "%.1f"])),
             "dtform": draw(st.sampled_from(["builtin", "builtin", "np.dtype", "str"]))}      # the dtype as int / np.dtype(int) / 'int' ... (all equal to the builtin)
 
 
 def _render(c):
     kind, rows, n = c["kind"], c["rows"], c["n"]
     vals = c["vals"]
-    if kind in ("int", "int01", "bigint"):
+    if kind in ("int", "int01", "bigint", "int01long"):
         toks = ["%d" % v for v in vals]
     elif kind == "float":
         toks = [c["fmt"] % v for v in vals]
@@ -297,6 +301,9 @@ def e_s2a(c):
     elif kind == "float":
         num = np.array([float(t) for t in toks], dtype=float).reshape(shape)
         natural = float
+    elif kind == "int01long":
+        num = np.array([float(int(t)) for t in toks], dtype=float).reshape(shape)      # int -> float: correctly rounded, like float(text)
+        natural = int
     else:
         num = np.array([int(t) for t in toks], dtype=np.int64).reshape(shape)
         natural = int
